@@ -65,7 +65,7 @@ func c09Gen(t *rapid.T) c09Scenario {
 			if key == "rcpt" {
 				key = fmt.Sprintf("rcpt:%d", rapid.SampledFrom(tx.Rcpts).Draw(t, "faultrcpt"))
 			}
-			tx.Faults[key] = rapid.SampledFrom([]string{"T", "P"}).Draw(t, "class")
+			tx.Faults[key] = rapid.SampledFrom([]string{"T", "P", "T421"}).Draw(t, "class")
 		}
 		switch rapid.IntRange(0, 9).Draw(t, "bodyfault") {
 		case 0:
